@@ -164,6 +164,14 @@ def check(w):
         if n.lower() in removed:
             out.append({'symptom': 'hop_by_hop_or_disabled_header_forwarded', 'features': {'header': n.lower()},
                         'detail': detail})
+    # framing headers are header fields too: what the client declared must still be declared
+    got_cl = [v for n, v in r['headers'] if n.lower() == b'content-length']
+    got_te = [v.lower() for n, v in r['headers'] if n.lower() == b'transfer-encoding']
+    if m.framing == 'cl' and got_cl != [str(len(m.body)).encode()]:
+        out.append({'symptom': 'content_length_field_not_preserved', 'features': {},
+                    'detail': dict(detail, got=got_cl, want=len(m.body))})
+    if m.framing == 'chunked' and got_te != [b'chunked']:
+        out.append({'symptom': 'transfer_encoding_field_not_preserved', 'features': {}, 'detail': dict(detail, got=got_te)})
     # framing headers: at most one of each, and consistent (h11 already validated consistency)
     for fn in framing_names:
         if sum(1 for n, _v in r['headers'] if n.lower() == fn) > 1:
